@@ -253,6 +253,48 @@ fn exec_guarded<E: Engine>(e: &E, plan: &E::Plan, st: &mut RunStats) -> Vec<Viol
     }
 }
 
+/// Crash localisation (see main.rs `supervise`): when VERIF_TRACE names a file, the index of every run is written
+/// to it before the run executes, so that a parent process can tell which run killed this process.
+fn trace_run(i: u64) {
+    use std::os::unix::fs::FileExt;
+    static TRACE: std::sync::OnceLock<Option<std::fs::File>> = std::sync::OnceLock::new();
+    let f = TRACE.get_or_init(|| std::env::var("VERIF_TRACE").ok().and_then(|p| std::fs::OpenOptions::new().create(true).write(true).truncate(false).open(p).ok()));
+    if let Some(f) = f {
+        let _ = f.write_at(&i.to_le_bytes(), 0);
+    }
+}
+
+/// The process died (abort, stack overflow, kill) while run `run` of this batch was executing: writes the replay file
+/// of that run's plan and prints the VIOLATION line. Returns the exit code.
+pub fn crash_report<E: Engine>(e: &E, o: &Opts, run: u64, class: &str, detail: &str) -> i32 {
+    let prop = e.id();
+    let pid = crate::rng::label(prop);
+    let mut rng = Rng::new(mix(&[o.seed, pid, run]));
+    let plan = e.gen(&mut rng, o.tier, run);
+    let v = Violation::new("T?", class, "process-died", detail);
+    let ident = v.identity();
+    if let Some(k) = known_match(&load_known(), prop, &v) {
+        println!("KNOWN-FINDING: property={prop} {} [{}]", k.what, ident);
+        return 0;
+    }
+    let replay_dir = verif_dir().join("replays");
+    let _ = std::fs::create_dir_all(&replay_dir);
+    let path = replay_dir.join(format!("{prop}-{}-{run}-{:08x}.json", o.seed, crate::rng::fnv(ident.as_bytes()) as u32));
+    let (o0, f0) = e.size(&plan);
+    let file = json!({
+        "property": prop, "seed": o.seed, "run": run, "tier": v.tier, "violation": v, "identity": ident, "plan": plan,
+        "shrunk_from": {"ops": o0, "faults": f0}, "shrunk_to": {"ops": o0, "faults": f0}, "shrink_steps": 0,
+        "note": "the code under test killed the harness process (abort / stack overflow) during this run; found by re-running the batch single-threaded with a run trace; not shrunk, because every candidate would have to run in its own process",
+    });
+    if let Err(err) = std::fs::write(&path, serde_json::to_string_pretty(&file).unwrap()) {
+        eprintln!("harness error: cannot write replay {}: {err}", path.display());
+        return 2;
+    }
+    println!("VIOLATION property={prop} replay={}", path.display());
+    eprintln!("  {} :: {} :: {} :: {}", v.tier, v.class, v.path, first_line(&v.detail, 300));
+    1
+}
+
 pub struct Outcome {
     pub exit: i32,
     pub digest: u64,
@@ -366,6 +408,7 @@ pub fn run_engine<E: Engine>(e: &E, o: &Opts) -> Outcome {
                         let mut rng = Rng::new(mix(&[seed, pid, i]));
                         let plan = e.gen(&mut rng, tier, i);
                         let mut st = RunStats::default();
+                        trace_run(i);
                         let violations = exec_guarded(e, &plan, &mut st);
                         let sample = if i < 3 { serde_json::to_value(&plan).ok() } else { None };
                         acc.add_run(i, st, violations, sample);
